@@ -1,5 +1,6 @@
 import Pendulum.Proofs.ZoneOps
 import Pendulum.Model.DTOps
+import Pendulum.Gen.Convert
 /-! # C02 — wall-clock construction is normalised by the documented DST rules -/
 namespace Pendulum.Props.C02
 open Pendulum Pendulum.Zone
@@ -216,6 +217,24 @@ theorem raise_iff_dt (z : Z) (w : Int) (fold : Bool) :
 theorem create_fixed_naive (off w : Int) (fold raise : Bool) :
     DTOps.create (.fixed off) w fold raise = .ok ⟨.fixed off, w, false⟩ ∧
     DTOps.create .naive w fold raise = .ok ⟨.naive, w, fold⟩ := ⟨rfl, rfl⟩
+
+/-- **the source itself**: `Timezone.convert`'s naive branch, regenerated from `tz/timezone.py` on every run by
+    `tools/gen_convert.py`, is the hand model `convertNaive` all theorems above are about — for every zone, wall
+    value, fold and raise flag. A change to the function's logic breaks this obligation. -/
+theorem convert_source_eq_model (z : Z) (w : Int) (fold raise : Bool) :
+    Gen.convertNaive (fun f x => z.woff f x) w fold raise =
+      (match convertNaive z ⟨w, fold⟩ raise with
+       | .ok l => .ok (l.w, l.fold)
+       | .error .nonExisting => .error "NonExistingTime"
+       | .error .ambiguous => .error "AmbiguousTime") := by
+  unfold Gen.convertNaive convertNaive
+  cases fold <;> cases raise <;>
+    by_cases c : z.woff true w > z.woff false w <;>
+    by_cases c2 : z.woff false w > z.woff true w <;>
+    simp [c, c2] <;> omega
+
+/-- the aware branch is still a plain `astimezone(self)` (modelled by `DTOps.inTz`, property C01) -/
+theorem convert_aware_branch_pinned : Gen.convertAwareSource = "return cast(_DT, dt.astimezone(self))" := by decide
 
 /-! non-vacuity: a table with a gap [4600,8200) and an overlap; a skipped and a repeated wall value -/
 example : (⟨3600, [⟨1000, 7200⟩, ⟨20000, 3600⟩]⟩ : Z).WF := by simp [Z.WF, Zone.WF, absI]
